@@ -419,6 +419,17 @@ def compile_obligation(prop, world, backend='asm', shares=(4, 2, 4), flavour='re
         if ('worlds/%s.cpp' % world) not in msg.split('\n')[0]:
             raise   # the library itself does not build: infrastructure, not a C17 verdict
         m = re.search(r'(/repo/[^:\s]+):(\d+):\d+: error: ([^\n]*)', msg)
+        if not m:
+            # the error is reported at the call site in the harness (e.g. "no matching function for call to
+            # ascon::...") and the compiler's notes name the declarations in /repo that were considered: the
+            # documented call no longer compiles against these headers
+            e1 = re.search(r'worlds/%s\.cpp:\d+:\d+: error: ([^\n]*)' % world, msg)
+            n1 = re.search(r'(/repo/[^:\s]+):(\d+):\d+: note: ', msg)
+            if e1 and n1 and 'ascon::' in e1.group(1):
+                class _M:
+                    def __init__(self, a, b, c): self.g = (None, a, b, c)
+                    def group(self, i): return self.g[i]
+                m = _M(n1.group(1), n1.group(2), e1.group(1))
         site = '%s:%s' % (os.path.relpath(m.group(1), B.REPO), m.group(2)) if m else 'harness'
         if not m:
             raise
